@@ -125,6 +125,11 @@ def categoric_summary(prog, fn):
             return all(from_remembered(d, depth + 1) for d in defs[e.id])
         if isinstance(e, ast.IfExp):
             return from_remembered(e.body, depth + 1) and from_remembered(e.orelse, depth + 1)
+        if isinstance(e, ast.Call) and dotted(e.func) == "np.where" and len(e.args) == 3:
+            return all(isinstance(a, ast.Constant) or from_remembered(a, depth + 1) for a in e.args[1:]) \
+                and any(from_remembered(a, depth + 1) for a in e.args[1:])
+        if isinstance(e, ast.Call) and dotted(e.func) in ("np.maximum", "np.clip") and e.args:
+            return from_remembered(e.args[0], depth + 1)
         return False
 
     F["matrix_indices_from_remembered_levels"] = bool(idx) and all(from_remembered(n.slice) for n in idx)
@@ -148,6 +153,225 @@ def categoric_summary(prog, fn):
     stores = [s for s in walk_local(fn.node) if isinstance(s, ast.Assign) and isinstance(s.targets[0], ast.Subscript)]
     S["stores"] = stores
     return S
+
+
+
+CASES = ("-1", "0", "+")
+
+
+def zeroing_model(fn, S):
+    """Interpret the statements of eval_new_data_categoric's slow path over the three abstract cases of a row's categorical
+    code.  Values per case: int, 'c' (the positive code itself), bool, ('row', k) = row k of the remembered contrast matrix,
+    ('zero',).  Returns (table of the returned array per case, all stores go to fresh arrays?, explanation)."""
+    x = fn.params[1]
+    fast = S["fast"]
+    policy = {id(n) for n in S["policy_nodes"].values()}
+    state, freshness, notes = {}, {}, []
+
+    def const(v):
+        return {k: v for k in CASES}
+
+    def is_codes(e):
+        return isinstance(e, ast.Attribute) and e.attr == "codes" and isinstance(e.value, ast.Call) and dotted(e.value.func) == "pd.Categorical" \
+            and [unparse(k.value) for k in e.value.keywords if k.arg == "categories"] == ["self.levels"] and e.value.args and unparse(e.value.args[0]) == x
+
+    def cmp(a, op, b):
+        if a == "c" and isinstance(b, int):
+            # c is an unknown integer >= 1
+            t = {ast.Eq: False if b < 1 else None, ast.NotEq: True if b < 1 else None, ast.Lt: False if b <= 1 else None,
+                 ast.LtE: False if b < 1 else None, ast.Gt: True if b < 1 else None, ast.GtE: True if b <= 1 else None}.get(type(op))
+            if t is None:
+                raise AnalysisError(f"zeroing model: cannot decide `code {type(op).__name__} {b}` for a positive code in {fn.qual}")
+            return t
+        if isinstance(a, int) and isinstance(b, int) and not isinstance(a, bool):
+            return {ast.Eq: a == b, ast.NotEq: a != b, ast.Lt: a < b, ast.LtE: a <= b, ast.Gt: a > b, ast.GtE: a >= b}[type(op)]
+        raise AnalysisError(f"zeroing model: unmodelled comparison of {a!r} and {b!r} in {fn.qual}")
+
+    def col_mask(e):
+        """m[:, None] / m[:, np.newaxis] / m.reshape(-1, 1) -> m"""
+        if isinstance(e, ast.Subscript) and isinstance(e.slice, ast.Tuple) and len(e.slice.elts) == 2 \
+                and unparse(e.slice.elts[0]) == ":" and unparse(e.slice.elts[1]) in ("None", "np.newaxis"):
+            return e.value
+        if isinstance(e, ast.Call) and isinstance(e.func, ast.Attribute) and e.func.attr == "reshape" and [unparse(a) for a in e.args] in (["-1", "1"], ["(-1, 1)"]):
+            return e.func.value
+        return e
+
+    def ev(e):
+        e = col_mask(e)
+        if is_codes(e):
+            return {"-1": -1, "0": 0, "+": "c"}
+        if isinstance(e, ast.Name):
+            if e.id in state:
+                return dict(state[e.id])
+            raise AnalysisError(f"zeroing model: `{e.id}` is not a tracked array in {fn.qual}")
+        if isinstance(e, ast.Constant) and isinstance(e.value, (int, float)) and not isinstance(e.value, bool):
+            return const(int(e.value)) if e.value == int(e.value) else const(("other",))
+        if isinstance(e, ast.UnaryOp) and isinstance(e.op, ast.USub) and isinstance(e.operand, ast.Constant):
+            return const(-e.operand.value)
+        if isinstance(e, ast.Call):
+            d = dotted(e.func) or ""
+            if d in ("np.copy", "np.array", "np.asarray", "np.ascontiguousarray") and e.args:
+                return ev(e.args[0])
+            if isinstance(e.func, ast.Attribute) and e.func.attr in ("copy", "to_numpy") and not e.args:
+                return ev(e.func.value)
+            if isinstance(e.func, ast.Attribute) and e.func.attr == "astype" and e.args and unparse(e.args[0]) in ("int", "'int'", "np.int64", "np.intp", "'int64'"):
+                return ev(e.func.value)
+            if d == "np.where" and len(e.args) == 3:
+                m, a, b = (ev(z) for z in e.args)
+                return {k: (a[k] if m[k] is True else b[k] if m[k] is False else _bad(m[k])) for k in CASES}
+            if d in ("np.logical_not", "np.invert") and len(e.args) == 1:
+                m = ev(e.args[0])
+                return {k: _neg(m[k]) for k in CASES}
+            if d in ("np.logical_and", "np.logical_or") and len(e.args) == 2:
+                a, b = ev(e.args[0]), ev(e.args[1])
+                f = (lambda p_, q_: p_ and q_) if d.endswith("and") else (lambda p_, q_: p_ or q_)
+                return {k: f(_b(a[k]), _b(b[k])) for k in CASES}
+            if d in ("np.zeros", "np.zeros_like"):
+                return const(("zero",))
+            if d in ("np.maximum", "np.clip") and len(e.args) >= 2:
+                a = ev(e.args[0])
+                lo = ev(e.args[1])
+                if d == "np.clip" and len(e.args) == 3 and not (isinstance(e.args[2], ast.Constant) and e.args[2].value is None):
+                    raise AnalysisError(f"zeroing model: clip with an upper bound in {fn.qual}")
+                out = {}
+                for k in CASES:
+                    if a[k] == "c":
+                        if isinstance(lo[k], int) and lo[k] <= 1:
+                            out[k] = "c"
+                        else:
+                            raise AnalysisError(f"zeroing model: maximum of a positive code and {lo[k]!r}")
+                    else:
+                        out[k] = max(a[k], lo[k])
+                return out
+            raise AnalysisError(f"zeroing model: unmodelled call `{unparse(e)[:60]}` in {fn.qual}")
+        if isinstance(e, ast.Compare) and len(e.ops) == 1:
+            a, b = ev(e.left), ev(e.comparators[0])
+            return {k: cmp(a[k], e.ops[0], b[k]) for k in CASES}
+        if isinstance(e, ast.UnaryOp) and isinstance(e.op, (ast.Invert, ast.Not)):
+            m = ev(e.operand)
+            return {k: _neg(m[k]) for k in CASES}
+        if isinstance(e, ast.BinOp) and isinstance(e.op, (ast.BitAnd, ast.BitOr)):
+            a, b = ev(e.left), ev(e.right)
+            f = (lambda p_, q_: p_ and q_) if isinstance(e.op, ast.BitAnd) else (lambda p_, q_: p_ or q_)
+            return {k: f(_b(a[k]), _b(b[k])) for k in CASES}
+        if isinstance(e, ast.BinOp) and isinstance(e.op, ast.Mult):
+            a, b = ev(e.left), ev(e.right)
+            out = {}
+            for k in CASES:
+                r, m = (a[k], b[k]) if isinstance(a[k], tuple) else (b[k], a[k])
+                if not isinstance(r, tuple) or not (isinstance(m, bool) or m in (0, 1)):
+                    raise AnalysisError(f"zeroing model: unmodelled product `{unparse(e)[:60]}` in {fn.qual}")
+                out[k] = r if m else ("zero",)
+            return out
+        if isinstance(e, ast.Subscript) and unparse(e.value) == "self.contrast_matrix.matrix":
+            i = ev(e.slice)
+            out = {}
+            for k in CASES:
+                if i[k] == "c" or (isinstance(i[k], int) and not isinstance(i[k], bool)):
+                    out[k] = ("row", i[k])
+                else:
+                    raise AnalysisError(f"zeroing model: the contrast matrix is indexed by {i[k]!r} in {fn.qual}")
+            return out
+        if isinstance(e, ast.Attribute) and unparse(e) == "self.contrast_matrix.matrix":
+            return const(("matrix",))
+        raise AnalysisError(f"zeroing model: unmodelled expression `{unparse(e)[:60]}` in {fn.qual}")
+
+    def _bad(v):
+        raise AnalysisError(f"zeroing model: {v!r} used as a mask in {fn.qual}")
+
+    def _b(v):
+        if isinstance(v, bool):
+            return v
+        _bad(v)
+
+    def _neg(v):
+        return not _b(v)
+
+    def is_fresh(e):
+        """the value of e is a new array (advanced indexing / np.where / arithmetic / explicit copy), not a view of the matrix"""
+        if isinstance(e, ast.Name):
+            return freshness.get(e.id, True)
+        if isinstance(e, ast.Subscript) and unparse(e.value) == "self.contrast_matrix.matrix":
+            return not isinstance(e.slice, (ast.Slice, ast.Constant))
+        if isinstance(e, ast.Attribute) and unparse(e) == "self.contrast_matrix.matrix":
+            return False
+        if isinstance(e, ast.Call) and dotted(e.func) == "np.asarray" and e.args:
+            return is_fresh(e.args[0])
+        return True
+
+    ret = None
+    fresh_ok = True
+    body = [st for st in fn.body]
+
+    def run(stmts):
+        nonlocal ret, fresh_ok
+        for st in stmts:
+            if st is fast or id(st) in policy:
+                continue
+            if isinstance(st, ast.If):
+                # policy chains (if error: raise / elif warning: warn) do not touch the arrays (checked separately)
+                if any(id(n) in policy for n in ast.walk(st)):
+                    continue
+                raise AnalysisError(f"zeroing model: unmodelled branch `{unparse(st.test)[:50]}` in {fn.qual}")
+            if isinstance(st, ast.Expr):
+                continue
+            if isinstance(st, ast.Return):
+                ret = ev(st.value)
+                if not is_fresh(st.value):
+                    pass
+                return
+            if isinstance(st, ast.Assign) and len(st.targets) == 1:
+                t = st.targets[0]
+                if isinstance(t, ast.Name):
+                    try:
+                        src = st.value
+                        while isinstance(src, ast.Call) and dotted(src.func) == "np.asarray" and src.args:
+                            src = src.args[0]
+                        if isinstance(src, ast.Name) and src.id in state:
+                            state[t.id] = state[src.id]   # an alias: stores through one name are seen through the other
+                        else:
+                            state[t.id] = ev(st.value)
+                        freshness[t.id] = is_fresh(st.value)
+                    except AnalysisError:
+                        state.pop(t.id, None)  # not an array of this model (difference sets, messages)
+                    continue
+                if isinstance(t, ast.Subscript) and isinstance(t.value, ast.Name) and t.value.id in state:
+                    if unparse(t.slice) in (":", "...", "slice(None)"):
+                        m = const(True)
+                    else:
+                        m = ev(t.slice)
+                    v = ev(st.value)
+                    cur = state[t.value.id]
+                    for k in CASES:
+                        if _b(m[k]):
+                            nv = v[k]
+                            if nv == 0 and isinstance(cur[k], tuple):
+                                nv = ("zero",)
+                            cur[k] = nv
+                    if not freshness.get(t.value.id, True):
+                        fresh_ok = False
+                        notes.append(f"`{unparse(st)[:60]}` stores into a view of self.contrast_matrix.matrix")
+                    continue
+                if isinstance(t, ast.Subscript) and unparse(t.value).startswith("self."):
+                    fresh_ok = False
+                    notes.append(f"`{unparse(st)[:60]}` stores into an attribute")
+                    continue
+                if isinstance(t, ast.Subscript) and isinstance(t.value, ast.Name) and t.value.id not in state:
+                    continue  # not an array of this model (e.g. a configuration store: R10.1's business)
+                if isinstance(t, ast.Attribute):
+                    continue  # attribute writes at prediction are R6.3 / R7.1's business
+            if isinstance(st, ast.AugAssign) and isinstance(st.target, ast.Name) and st.target.id in state and isinstance(st.op, ast.Mult):
+                state[st.target.id] = ev(ast.BinOp(left=st.target, op=ast.Mult(), right=st.value))
+                if not freshness.get(st.target.id, True):
+                    fresh_ok = False
+                    notes.append(f"`{unparse(st)[:60]}` multiplies a view of self.contrast_matrix.matrix in place")
+                continue
+            raise AnalysisError(f"zeroing model: unmodelled statement `{unparse(st)[:60]}` in {fn.qual}")
+
+    run(body)
+    if ret is None:
+        raise AnalysisError(f"zeroing model: no return on the slow path of {fn.qual}")
+    return ret, fresh_ok, "; ".join(notes) or "see the statements of the slow path"
 
 
 def categoric_rules(prog, rep, rule_policy, rule_zero, fn):
@@ -194,42 +418,25 @@ def categoric_rules(prog, rep, rule_policy, rule_zero, fn):
         obl(rep, fn, w, rule_policy, not has_ret and not assigns_result,
             "the 'warning' branch only warns: the result is the same as in 'silent' mode", "",
             "the 'warning' branch returns/raises/changes the result: 'warning' and 'silent' differ in more than the warning")
-    # zeroing discipline
-    stores = S["stores"]
-    idx_store = [s for s in stores if unparse(s.value) == "0" and isinstance(s.targets[0].value, ast.Name)]
-    ok = len(idx_store) == 2
-    why = ""
-    if ok:
-        a, b = sorted(idx_store, key=lambda s: s.lineno)
-        m1, m2 = unparse(a.targets[0].slice), unparse(b.targets[0].slice)
-        ok = m1 == m2 and m1.endswith("== -1")
-        why = f"index patch mask `{m1}`, zeroing mask `{m2}`"
-        obl(rep, fn, b, rule_zero, ok, "the mask that patches the index and the mask that zeroes the rows are the same expression (codes == -1)", why,
-            f"masks differ or are not `codes == -1`: {why}")
-        # patched index array is a copy of the codes; codes come from the remembered categorical
-        mvar = m1.split(" ==")[0]
-        patched = unparse(a.targets[0].value)
-        zeroed = unparse(b.targets[0].value)
-        ok1 = defs.get(patched) in (f"np.copy({mvar})", f"{mvar}.copy()", f"np.array({mvar})")
-        obl(rep, fn, a, rule_zero, ok1, f"`{patched}` is a copy of the codes (the codes themselves stay -1 for the mask)",
-            str(defs.get(patched)), f"`{patched}` = {defs.get(patched)}: patching it also changes the mask source")
-        ok2 = defs.get(zeroed) == f"self.contrast_matrix.matrix[{patched}]"
-        obl(rep, fn, b, rule_zero, ok2,
-            f"the zeroed array `{zeroed}` is a fresh advanced-indexing copy of the remembered matrix (never the matrix itself)",
-            str(defs.get(zeroed)), f"`{zeroed}` = {defs.get(zeroed)}: zeroing writes through to the remembered contrast matrix or to another array")
-        ok3 = defs.get(mvar, "").startswith("pd.Categorical(") and defs.get(mvar, "").endswith(".codes")
-        obl(rep, fn, a, rule_zero, ok3, f"`{mvar}` are the categorical codes (-1 for unseen levels)", str(defs.get(mvar)))
-        rets = [r for r in walk_local(fn.node) if isinstance(r, ast.Return) and unparse(r.value) == zeroed]
-        ok4 = len(rets) == 1 and c.dominates(c.node_of(b), c.node_of(rets[0]))
-        obl(rep, fn, rets[0] if rets else fn.node, rule_zero, ok4, "the zeroed array is what is returned, after the masked store")
-    else:
-        obl(rep, fn, fn.node, rule_zero, False, "index patch and masked zeroing present", "",
-            f"expected two masked stores of 0 (index patch, row zeroing); found {[short(s) for s in idx_store]}")
-    whole = [s for s in stores if unparse(s.targets[0].slice) in (":", "...", "slice(None)") or "[:]" in unparse(s.targets[0])]
-    obl(rep, fn, whole[0] if whole else fn.node, rule_zero, not whole, "no whole-array store: rows with seen levels are untouched")
+    # zeroing discipline: abstract interpretation of the slow path over the three cases of a row's code
+    # (-1 = unseen level, 0 = first remembered level, + = any later level)
+    try:
+        table, fresh, why = zeroing_model(fn, S)
+    except AnalysisError as e:
+        rep.defer(f"{rule_zero}: {e}")
+        table, fresh, why = None, True, str(e)
+    want = {"-1": ("zero",), "0": ("row", 0), "+": ("row", "c")}
+    if table is None:
+        want = None
+    obl(rep, fn, fn.node, rule_zero, table == want,
+        "per-row result: unseen level -> zero row; level k -> row k of the remembered contrast matrix (cases code=-1 / 0 / >0)",
+        str(table), f"the rows returned for codes -1 / 0 / >0 are {table}, expected {want} ({why})")
+    obl(rep, fn, fn.node, rule_zero, fresh,
+        "masked stores go to an advanced-indexing copy (or a new array), never to the remembered contrast matrix", "",
+        f"a store writes through to the remembered matrix: {why}")
     summary = dict(F)
     summary["fields"] = sorted({n.attr for n in ast.walk(fn.node) if is_self_attr(n)})
-    summary["n_stores"] = len(stores)
+    summary["row_table"] = sorted(table.items()) if isinstance(table, dict) else table
     return summary
 
 
@@ -454,6 +661,39 @@ def consuming_operator_sites(prog, sites):
                             out.append({"fn": fn, "node": x, "cls": "Term", "args": [
                                 (0, "self", "shared", f"`self` is the left operand of `{fn.cls.name}.{d}` in every iteration, and that operator "
                                                       "builds its result from self's own components (no copy)")]})
+    # the same operator applied once, while the operand also stays in the result: `Model(self, self @ other)`
+    for q, fn in sorted(prog.functions.items()):
+        if fn.module is not mod or fn.parent is not None or fn.cls is None:
+            continue
+        in_loop = {id(x) for st in out if st["fn"] is fn for x in [st["node"]]}
+        for x in ast.walk(fn.node):
+            if not (isinstance(x, ast.BinOp) and type(x.op) in OP_DUNDER and id(x) not in in_loop):
+                continue
+            if not (isinstance(x.left, ast.Name) and x.left.id == "self"):
+                continue
+            d = OP_DUNDER[type(x.op)]
+            roles = consumes.get((fn.cls.name, d), set())
+            branch = _innermost_branch(fn, x)
+            skip = set()
+            for s in branch:
+                for y in ast.walk(s):
+                    if isinstance(y, ast.If):
+                        skip |= {id(z) for z in ast.walk(y.test)}
+                    if isinstance(y, ast.Raise):
+                        skip |= {id(z) for z in ast.walk(y)}
+            if id(x) in skip:
+                continue
+            for role, operand in (("self", x.left), ("other", x.right)):
+                if role not in roles or not isinstance(operand, ast.Name):
+                    continue
+                if role == "other" and operand.id not in fn.params:
+                    continue
+                extra = [y for s in branch for y in ast.walk(s) if isinstance(y, ast.Name) and y.id == operand.id
+                         and isinstance(y.ctx, ast.Load) and y is not operand and id(y) not in skip]
+                if extra:
+                    out.append({"fn": fn, "node": x, "cls": "Term", "args": [
+                        (0, operand.id, "shared", f"`{operand.id}` is an operand of `{fn.cls.name}.{d}`, which builds its result from that operand's "
+                                                  f"own components (no copy), and `{operand.id}` occurs {len(extra)} more time(s) in the same result")]})
     return out
 
 
